@@ -19,7 +19,7 @@ LEVEL_NOTE = ("Trusted: the tool's own scan-for-the-maximum is the observer of r
               "shapes are forms the log crate accepts.")
 RULE = ("case = generated tree; 3 runs + 1 run per inserted reference (capped at 8 probes). Non-trivial = first edit inserted at "
         "least one reference; distinct = case index.")
-PROBES = ["structured", "unstructured", "target_shape", "kv_shape", "multiline_shape", "no_kvp_directive", "ignore_directive",
+PROBES = ["first_edit_faulted", "first_edit_faulted_exit0", "structured", "unstructured", "target_shape", "kv_shape", "multiline_shape", "no_kvp_directive", "ignore_directive",
           "lock_in_use", "probe_runs", "preexisting_refs"]
 ASSUMPTIONS = ["fault-free runs; developer edits in the probe touch one number, the lock and one other file only"]
 DEADLINE = {"quick": 200, "thorough": 3000}
@@ -51,7 +51,7 @@ def shape_label(text):
 
 def gen(rng):
     structured = rng.random() < 0.5
-    shapes = (world.STRUCT_SHAPES + ["target", "target_kv"]) if structured else (world.UNSTRUCT_SHAPES + ["target_kv"])
+    shapes = world.STRUCT_SHAPES if structured else world.UNSTRUCT_SHAPES
     wm = world.gen_world_model(rng, structured=structured, use_cache=rng.choice([True, None, False]), nfiles=rng.randrange(1, 4),
                                sizes=rng.choice([["tiny", "tiny", "k8"]] * 4 + [["tiny", "k8"], ["tiny", "k64", "k160"], ["tiny", "k160", "k256"]]),
                                p_have=0.3, max_stmts=4, min_missing=1, shapes=shapes,
@@ -82,26 +82,38 @@ def run_on(root, check, seed, knobs, ctx):
     return res
 
 
-def evaluate(wm0, knobs, seed, ctx, max_probes=8):
+def evaluate(wm0, knobs, seed, ctx, max_probes=8, first_fault=None):
     wm = copy.deepcopy(wm0)
     style = "structured" if wm["cfg"].get("structured") else "unstructured"
-    scenario = {"wm": world.wm_to_json(wm0), "knobs": knobs, "seed": seed}
+    scenario = {"wm": world.wm_to_json(wm0), "knobs": knobs, "seed": seed, "first_fault": first_fault}
     viols = []
     dg = hashlib.sha256()
+    ftag = "|first-edit-ioerr" if first_fault else ""
 
     def V(sym, what):
-        viols.append({"signature": "%s|%s" % (sym, style), "what": what, "scenario": scenario, "digest": None})
+        viols.append({"signature": "%s|%s%s" % (sym, style, ftag), "what": what, "scenario": scenario, "digest": None})
 
     root = core.new_root("f")
     inserted = []
     try:
         core.materialise(world.wm_world(wm), root)
-        r1 = run_on(root, False, seed, knobs, ctx)
+        if first_fault:
+            r1 = core.run_breadlog(root, check=False, plan={"seed": seed, "perm": True, "faults": [first_fault]}, knobs=knobs)
+            ctx.count_run(r1)
+            if r1.mode == "timeout":
+                raise core.HarnessError("timeout in C06")
+            if r1.fired_counts():
+                ctx.probes["first_edit_faulted"] += 1
+                if r1.mode == "exited" and r1.status == 0:
+                    ctx.probes["first_edit_faulted_exit0"] += 1
+        else:
+            r1 = run_on(root, False, seed, knobs, ctx)
         dg.update(r1.trace_digest().encode())
         d1 = core.read_world(root)
         info = world.sync_model(wm, d1)
         if info["torn"]:
-            V("not-insert-only", "%s after the first edit" % info["torn"][0])
+            if not first_fault:
+                V("not-insert-only", "%s after the first edit" % info["torn"][0])
             return viols, inserted
         inserted = info["inserted"]
         if r1.mode != "exited" or r1.status != 0:
@@ -168,7 +180,14 @@ def evaluate(wm0, knobs, seed, ctx, max_probes=8):
 
 def run_case(rng, idx, tier, ctx):
     wm, knobs, seed, tags = gen(rng)
-    viols, inserted = evaluate(wm, knobs, seed, ctx, max_probes=8 if tier == "quick" else 12)
+    first_fault = None
+    if rng.random() < 0.3:
+        # "after an edit run that exits 0": also one that met an I/O error on a scratch file on the way
+        kind = rng.choice(["WRITE", "WRITE", "OPEN_W", "RENAME"])
+        first_fault = {"from": 1, "kinds": [kind], "pre": "tmp/", "nth": rng.randrange(1, 6), "act": "fail",
+                       "errno": rng.choice(["EIO", "ENOSPC", "EDQUOT"] if kind == "WRITE" else ["EACCES", "ENOSPC", "EXDEV"][:3])}
+    viols, inserted = evaluate(wm, knobs, seed, ctx, max_probes=(8 if tier == "quick" else 12) if not first_fault else 0,
+                               first_fault=first_fault)
     for t in tags:
         ctx.probes[t] += 1
     ctx.probes["structured" if wm["cfg"].get("structured") else "unstructured"] += 1
@@ -196,7 +215,8 @@ def run_case(rng, idx, tier, ctx):
 
 def replay(scenario, ctx):
     wm = world.wm_from_json(scenario["wm"])
-    vs, _ = evaluate(wm, scenario["knobs"], scenario["seed"], ctx)
+    vs, _ = evaluate(wm, scenario["knobs"], scenario["seed"], ctx, first_fault=scenario.get("first_fault"),
+                     max_probes=0 if scenario.get("first_fault") else 8)
     return vs
 
 
